@@ -69,6 +69,7 @@ func tableConfigs(tier string) []Config {
 			cfg(pSingle, 1, 5, "bulk"),
 			cfg(pSmallOdd, 1, 6, "plain"), cfg(pSmallOdd, 2, 4, "bulk"), cfg(pTinyOdd, 1, 6, "bulk"), cfg(pTinyOdd, 2, 6, "plain"),
 			cfg(pLastPort, 1, 4, "bulk"), cfg(pLastPort, 3, 6, "plain"),
+			withMap(cfg(pHigh, 1, 5, "bulk"), 2), withMap(cfg(pWhole, 2, 5, "plain"), 1), withMap(cfg(pDefault, 1, 4, "plain"), 3),
 		}
 	}
 	return []Config{
@@ -79,8 +80,12 @@ func tableConfigs(tier string) []Config {
 		cfg(pSingle, 1, 4, "bulk"),
 		cfg(pSmallOdd, 1, 4, "plain"), cfg(pTinyOdd, 1, 6, "bulk"),
 		cfg(pLastPort, 2, 5, "bulk"),
+		withMap(cfg(pHigh, 1, 4, "bulk"), 2), withMap(cfg(pWhole, 2, 4, "plain"), 1),
 	}
 }
+
+// withMap: the same configuration with a kernel map of n entries behind the manager
+func withMap(c Config, n int) Config { c.MapCap = n; return c }
 
 // chainConfigs: long random histories with more subscribers than blocks (exhaustion and reuse).
 func chainConfigs() []Config {
